@@ -56,5 +56,52 @@ def run(seed=0, rounds=400):
         fl = float(rng.choice([numpy.nan, numpy.inf, -numpy.inf, 0., 1., -2.5]))
         g = float(rng.choice([numpy.nan, numpy.inf, 0., 3.]))
         check('ieee-comparisons', (not (fl > g) if numpy.isnan(fl) or numpy.isnan(g) else True) and ((max(fl, g) == g) == (g > fl) or numpy.isnan(max(fl, g)) or fl == g), fl, g)
+    # ---- C17 extension axioms (contracts/C17.py, contracts/C17_intern.py)
+    import functools, inspect
+    seen = {}
+    for c in range(10000):
+        t = '{:04d}'.format(c)
+        check('count-field-4-digits-injective', len(t) == 4 and t.isdigit() and t not in seen, c)
+        seen[t] = c
+    check('count-field-wider-from-10000', len('{:04d}'.format(10000)) == 5)
+    for _ in range(rounds // 4):
+        v = int(rng.randint(-100, 100))
+        for T in (numpy.int8, numpy.int16, numpy.int32, numpy.int64):
+            x = T(v)
+            check('int(numpy-int)-is-the-equal-python-int', type(int(x)) is int and int(x) == v and repr(int(x)) == repr(v), v)
+        fv = float(rng.choice([0.5, -1.25, 3.0, 1e10, float(numpy.float32(0.1))]))
+        for T in (numpy.float32, numpy.float64):
+            x = T(fv)
+            check('float(numpy-float)-is-the-equal-python-float', type(float(x)) is float and float(x) == x and repr(float(x)) == repr(float(x).__float__()), fv)
+        check('bool(numpy-bool)', bool(numpy.bool_(v % 2)) is bool(v % 2))
+        check('complex(numpy-complex)', complex(numpy.complex64(complex(v, 1))) == complex(v, 1) and type(complex(numpy.complex64(1j))) is complex)
+        # arrays: astype / tobytes / equal
+        n = int(rng.randint(0, 5))
+        vals = rng.randint(-100, 100, size=(n, 2))
+        a8, a32, a64 = vals.astype(numpy.int8), vals.astype(numpy.int32), vals.astype(numpy.int64)
+        check('astype-int-then-tobytes-is-width-independent', a8.astype(int, copy=False).tobytes() == a32.astype(int, copy=False).tobytes() == a64.astype(int, copy=False).tobytes(), vals)
+        check('astype-to-own-dtype-changes-nothing', a64.astype(int, copy=False).tobytes() == a64.tobytes() and a64.astype(int, copy=False).dtype == a64.dtype, vals)
+        check('astype-keeps-shape', a8.astype(int, copy=False).shape == a8.shape and a8.astype(float).shape == a8.shape)
+        big = numpy.array([2**63 + int(rng.randint(0, 9)), 1], dtype=numpy.uint64)
+        check('equal-all-detects-lossy-cast', not numpy.equal(big.astype(int), big).all() and numpy.equal(a8.astype(int), a8).all(), big)
+        check('asarray-of-ndarray-is-itself', numpy.asarray(a32) is a32 and (n == 0 or (numpy.asarray(a32.tolist()) == a32).all()))
+        fo = numpy.asfortranarray(a64)
+        check('tobytes-depends-on-dtype-shape-values-only', fo.tobytes() == a64.tobytes() and (n == 0 or a64.tobytes() != a32.tobytes()), vals)
+        # sorted of (name, value) pairs with distinct names
+        names = list(rng.permutation(['p', 'q', 'k', 'kw', 'a']))[:int(rng.randint(0, 5))]
+        pairs = [(nm, object()) for nm in names]
+        check('sorted-pairs-by-distinct-name', [p[0] for p in sorted(pairs)] == sorted(names), names)
+
+    def f(x):
+        return x
+    f.extra = 1
+    f.__nutils_hash__ = b'stale'
+
+    class W:
+        pass
+    w = W()
+    w.__nutils_hash__ = b'fresh'
+    functools.update_wrapper(w, f)
+    check('update_wrapper-updates-dict-and-sets-wrapped', w.__wrapped__ is f and w.extra == 1 and w.__nutils_hash__ == b'stale' and w.__name__ == 'f')
     print('AXIOMS ' + json.dumps(dict(rounds=rounds, failures=fails[:5])))
     return not fails
